@@ -276,3 +276,48 @@ mod tests {
         assert_eq!(history.next_older(), None);
     }
 }
+
+#[cfg(feature = "verif-hooks")]
+impl<B: Buffer> History<B> {
+    /// Verification hook: calls `f` with the bytes of every stored element, oldest first.
+    /// Returns position of currently selected element counted from the newest one
+    /// (1 is newest, 0 when nothing is selected, usize::MAX if selection points nowhere)
+    #[doc(hidden)]
+    pub fn __verif_entries(&self, mut f: impl FnMut(&[u8])) -> usize {
+        let used = core::cmp::min(self.used, self.buffer.len());
+        let buf = &self.buffer.as_slice()[..used];
+        let mut start = 0;
+        let mut count = 0;
+        let mut selected = None;
+        for (i, &b) in buf.iter().enumerate() {
+            if b == 0 {
+                f(&buf[start..i]);
+                if self.cursor == Some(start) {
+                    selected = Some(count);
+                }
+                count += 1;
+                start = i + 1;
+            }
+        }
+        match (self.cursor, selected) {
+            (None, _) => 0,
+            (Some(_), Some(index)) => count - index,
+            (Some(_), None) => usize::MAX,
+        }
+    }
+
+    /// Verification hook: raw buffer, used bytes, byte offset of selected element
+    #[doc(hidden)]
+    pub fn __verif_raw(&self) -> (&[u8], usize, Option<usize>) {
+        (self.buffer.as_slice(), self.used, self.cursor)
+    }
+
+    /// Verification hook: overwrite bytes that are not part of any element
+    #[doc(hidden)]
+    pub fn __verif_poison_dead(&mut self, fill: u8) {
+        let used = self.used;
+        if let Some(dead) = self.buffer.as_slice_mut().get_mut(used..) {
+            dead.fill(fill);
+        }
+    }
+}
